@@ -13,6 +13,7 @@ import (
 	"hash"
 	"math"
 	"net/url"
+	"sort"
 	"strings"
 )
 
@@ -131,6 +132,40 @@ func (b Bearer) Build(secret string) (string, bool) {
 	return signing + "." + sig, true
 }
 
+// SignedKey says which key the bearer's signature is the HMAC of (under the alg its header names), or that it is
+// no such HMAC under any key: not an HMAC alg, a truncated signature, a signature computed with another hash.
+// The model decides from this and the configured secret whether the signature verifies.
+func (b Bearer) SignedKey(secret string) (string, bool) {
+	if b.Kind != "jwt" && b.Kind != "minted" {
+		return "", false
+	}
+	algName, _ := b.Alg.(string)
+	if hmacFor(algName) == nil || (b.SignAs != "" && b.SignAs != algName) || b.Trunc > 0 {
+		return "", false
+	}
+	if b.SignKey != nil {
+		return *b.SignKey, true
+	}
+	return secretVariant(secret, b.Secret), true
+}
+
+// HeaderNames lists the JOSE header members besides alg and typ.
+func (b Bearer) HeaderNames() []string {
+	var out []string
+	for k := range b.Header {
+		if k != "typ" && k != "alg" {
+			out = append(out, k)
+		}
+	}
+	for _, part := range strings.Split(b.HeaderDup, ",") {
+		if i := strings.Index(part, ":"); i > 0 {
+			out = append(out, strings.Trim(part[:i], "\" "))
+		}
+	}
+	sort.Strings(out)
+	return out
+}
+
 // MClaims is permission.Token as the harness expects json decoding to fill it.
 type MClaims struct {
 	Topic, Prefix, Booking string
@@ -140,10 +175,12 @@ type MClaims struct {
 
 // MBearer is what the model is told about a bearer.
 type MBearer struct {
-	Cred   string // NoHeader | Bearer
-	Shape  string // SWell SBadSegments SBadHeader SBadClaims
-	Alg    string // HS256 HS384 HS512 AlgNone AlgOtherKnown AlgUnknown AlgAbsent
-	SigOK  bool
+	Cred   string   // NoHeader | Bearer
+	Shape  string   // SWell SBadSegments SBadHeader SBadClaims
+	Alg    string   // HS256 HS384 HS512 AlgNone AlgOtherKnown AlgUnknown AlgAbsent
+	SigOK  bool     // by construction (used by the Go spec predicates only; the model derives it from Signed)
+	Signed *string  // the key the signature is an HMAC of, nil if none
+	Header []string // names of further header members
 	Claims MClaims
 }
 
@@ -468,6 +505,7 @@ type Config struct {
 	Target   string `json:"target"`
 	Audience string `json:"audience"`
 	TTL      int64  `json:"ttl"`
+	Secret   string `json:"secret,omitempty"` // the configured secret, as one string
 }
 
 // Case is a sequential history with the outputs observed on the real code.
